@@ -9,11 +9,11 @@ HOOKS = {
 }
 
 ENGINES_DOC = [
-    {"name": "spec", "path": "spec/", "serves_properties": ["C03", "C12", "C13", "C14", "C15", "C16"],
+    {"name": "spec", "path": "spec/", "serves_properties": ["C02", "C03", "C05", "C06", "C10", "C11", "C12", "C13", "C14", "C15", "C16"],
      "kind_free_text": "TLA+ modules (single source of truth) checked with TLC"},
-    {"name": "harness", "path": "harness/", "serves_properties": ["C03", "C12", "C13", "C14", "C15", "C16"],
+    {"name": "harness", "path": "harness/", "serves_properties": ["C02", "C03", "C05", "C06", "C10", "C11", "C12", "C13", "C14", "C15", "C16"],
      "kind_free_text": "Rust conformance harness: replays TLC-generated behaviours on the real code, records traces/rows for TLC to judge"},
-    {"name": "orchestrator", "path": "bin/check", "serves_properties": ["C03", "C12", "C13", "C14", "C15", "C16"],
+    {"name": "orchestrator", "path": "bin/check", "serves_properties": ["C02", "C03", "C05", "C06", "C10", "C11", "C12", "C13", "C14", "C15", "C16"],
      "kind_free_text": "python3 driver: build, TLC, replay/validation, evidence, exit code"},
 ]
 
@@ -71,8 +71,47 @@ CHECKS.update({
     },
 })
 
+_EXEC_TECH = "TLA+ specification of the dispatcher (ScpiTree/ScpiExec); TLC enumerates messages and computes expected outcomes, replayed on Node::run"
+CHECKS.update({
+    "C02": {
+        "engine": "spec",
+        "text": "ScpiTree.tla defines designation declaratively (a header spells the names to a leaf after deleting any subset of default nodes) and the level of the last explicit node; TLC checks it equals first-match search on the SCPI-valid library trees and enumerates every header of <= 3 candidate mnemonics x leading colon x event/query as 1-unit messages plus every 2-unit message with a valid first unit (relative resolution, common commands, -113 without a call); each is replayed on the real dispatcher with logging handlers, also after a preceding message.",
+        "design_ref": "DESIGN.md 3 C02",
+        "note": "Bounded: 7 library trees (depth <= 4, default leaves/branches, anonymous default leaf, numeric-suffixed siblings, same name at two levels, root-level default branch); trees must satisfy ValidTree (checked by TLC).",
+        "technique": _EXEC_TECH,
+    },
+    "C05": {
+        "engine": "spec", "category": "model_checking",
+        "text": "ScpiExec.tla executes a message one unit per step and freezes after the first failure (invariants Order, Frozen checked by TLC). TLC enumerates all messages of <= 3 units over fault-free and single-fault units (handler errors incl. extended and after a partial response, malformed headers, malformed data pulled/not pulled, undefined header, -109, -108) and all query messages x every buffer capacity; the replay compares handler calls (order/count/form), the returned error and the error hook (exactly once, same error).",
+        "design_ref": "DESIGN.md 3 C05",
+        "note": "One fault per unit; formatter faults only through capacity exhaustion; a lexical fault in a unit's data may surface before or inside that unit's handler (both accepted).",
+        "technique": _EXEC_TECH + " + fault enumeration",
+    },
+    "C06": {
+        "engine": "spec",
+        "text": "ScpiExec.tla gives a handler exactly data[1..k] of its own unit, -109 for a missing required pull, nothing for a missing optional one and -108 for surplus data (invariant OwnData). TLC enumerates units with 0..3 data elements of all seven types x every pull sequence of <= 3 (4) required/optional pulls in first, middle and last position before every ending; handlers log the exact tokens (kind + payload bytes) they receive.",
+        "design_ref": "DESIGN.md 3 C06",
+        "note": "Payload comparison is by token kind and payload bytes as handed to the handler.",
+        "technique": _EXEC_TECH,
+    },
+    "C10": {
+        "engine": "spec",
+        "text": "ScpiExec.tla builds the response as ';'-joined unit texts ([header SP] ','-joined data) and one NL iff non-empty (invariant Framing). TLC enumerates every message of <= 3 (4) units over query units with 1-3 data (incl. ';' ',' inside strings/blocks, with/without header) and non-query units x 7 endings (end, NL, ws, ws NL, ';', ';NL', '; '); byte-exact comparison of the buffer.",
+        "design_ref": "DESIGN.md 3 C10",
+        "note": "A query that writes nothing is not generated (488.2 has no empty response unit).",
+        "technique": _EXEC_TECH,
+    },
+    "C11": {
+        "engine": "spec", "category": "model_checking",
+        "text": "ScpiExec.tla with a capacity: a write succeeds iff it fits, else -225; TLC enumerates every <= 3-unit message x every capacity 0..52 (beyond the longest response) and the growable buffer; replay on ArrayVec<u8,CAP>: Ok => bytes equal the specification's (= growable run), else exactly -225 and len <= CAP, never a panic; a counting global allocator asserts zero heap allocations inside Node::run (handler bookkeeping excluded).",
+        "design_ref": "DESIGN.md 3 C11",
+        "note": "Allocation-freedom is monitored on every replayed message rather than derived from the specification.",
+        "technique": _EXEC_TECH + " + fault enumeration over capacities + allocation monitor",
+    },
+})
+
 NOT_APPLICABLE = [
     {"property_id": p, "reason": "check under construction in this round (see DESIGN.md 6, construction order); not yet claimed"}
-    for p in ["C01", "C02", "C04", "C05", "C06", "C07", "C08", "C09", "C10", "C11",
+    for p in ["C01", "C04", "C07", "C08", "C09",
               "C17", "C18", "C19", "C20"]
 ]
